@@ -61,6 +61,10 @@ void Arena::_init(size_t min_block_size, Span<uint8_t> static_arena_memory) noex
   ASMJIT_ASSERT(min_block_size >= kMinManagedBlockSize);
   ASMJIT_ASSERT(min_block_size <= kMaxManagedBlockSize);
 
+#if defined(ASMJIT_VERIF)
+  min_block_size = asmjit_verif_tune(kAsmJitVerifKnobArenaBlockSize, min_block_size);
+#endif
+
   ManagedBlock* block = Arena_get_zero_block();
   size_t block_size_shift = Support::bit_size_of<size_t> - Support::clz(min_block_size);
 
